@@ -292,6 +292,45 @@ def r6_non_dummy_witness(ctx, P):
     ctx.floor(R, "NonDummyChunk constructions", n, 5)
 
 
+UNCHECKED_CALLERS = {
+    # outermost function name -> why the chunk cannot be a dummy there
+    "allocate_prepared": "a successful prepare_allocation precedes (safety contract of the commit)",
+    "allocate_prepared_rev": "a successful prepare_allocation precedes (safety contract of the commit)",
+    "allocate_prepared_slice": "a successful prepare precedes (safety contract of the commit)",
+    "allocate_prepared_slice_rev": "a successful prepare precedes (safety contract of the commit)",
+    "shrink_slice": "under is_last == true: the block lies in the current, real chunk",
+    "deallocate_assume_last": "callers established is_last",
+    "grow": "under is_last == true",
+    "shrink": "under is_last == true",
+    "generic_alloc_try_with": "after the allocation of the Result slot succeeded",
+    "generic_alloc_try_with_mut": "after the preparation of the Result slot succeeded",
+    "reset_to": "the checkpoint's chunk: unallocated checkpoints returned earlier, claimed ones are excluded by the contract",
+    "alloc": "under a successful bump (the dummy geometry makes every bump fail)",
+    "prepare_allocation": "under a successful bump (the dummy geometry makes every bump fail)",
+    "prepare_allocation_range": "under a successful bump (the dummy geometry makes every bump fail)",
+}
+
+
+def r7_unchecked_witness_callers(ctx, P, R="C14.R7"):
+    ctx.rule(R, "who may skip the dummy test: as_non_dummy_unchecked is called only from the tabled functions (each with the reason "
+                "the chunk is real there); a new caller - e.g. a 'guaranteed allocated, so no dummy' shortcut, which forgets the "
+                "CLAIMED dummy - is reported")
+    n = 0
+    for b in P.fn_bodies():
+        cs = b.calls_to(lambda f: f.get("name") == "as_non_dummy_unchecked")
+        if not cs:
+            continue
+        outer = P.outermost_fn(b.item)["name"]
+        for k, (s_, t) in enumerate(cs):
+            n += 1
+            why = UNCHECKED_CALLERS.get(outer)
+            ctx.inst(R, b.path, why is not None, f"tabled: {why}" if why else
+                     "calls as_non_dummy_unchecked without being on the list of functions for which the chunk is known to be real: "
+                     "on a claimed handle the CLAIMED dummy header is treated as a chunk (stats report a chunk, positions are read from a "
+                     "static)", where=b.where(s_), site=f"unchecked witness #{k}")
+    ctx.floor(R, "calls of as_non_dummy_unchecked", n, 12)
+
+
 EB_TRAIT = "error_behavior::ErrorBehavior"
 
 
@@ -336,4 +375,8 @@ def run(ctx, progs):
         r4_scopes_through_guard(ctx, P)
         r5_claimed_is_not_alloc_failure(ctx, P)
         r6_non_dummy_witness(ctx, P)
+        r7_unchecked_witness_callers(ctx, P)
+        from . import c17, c18
+        c17.r8_reserve_keeps_current_chunk(ctx, P, R="C14.R8")
+        c18.r4_conversions(ctx, P, R="C14.R9")
     ctx.config = None
